@@ -96,12 +96,19 @@ def histories(draw):
     nind = 0
     for _ in range(draw(st.integers(1, 20))):
         o = draw(st.sampled_from(["new", "new", "new", "mutate", "mutate", "mutate_nosync", "add_nosync", "sync_all",
-                                  "view"]))
+                                  "view", "inplace", "inplace"]))
         if o in ("new", "add_nosync"):
             ops.append({"op": o, "f": draw(fields(nind))})
             nind += 1
         elif o in ("mutate", "mutate_nosync") and nind:
             ops.append({"op": o, "i": draw(st.integers(0, nind - 1)), "f": draw(fields(nind))})
+        elif o == "inplace" and nind:
+            # change the *same* objects (dict / list) an earlier synchronisation has seen, then synchronise again
+            ops.append({"op": o, "i": draw(st.integers(0, nind - 1)),
+                        "what": draw(st.sampled_from(["custom-key", "custom-nested", "signed-item", "vector-item",
+                                                      "feature-append", "costs-append"])),
+                        "val": draw(st.one_of(st.integers(-9, 9).map(float), st.sampled_from([-0.0, 0.0, 1.5]))),
+                        "sync": draw(st.sampled_from(["individual", "individual", "all"]))})
         elif o in ("sync_all", "view"):
             ops.append({"op": o})
     return {"meta": meta, "ops": ops}
@@ -248,6 +255,40 @@ def check_history(case):
                 if o == "mutate":
                     with guard("store"):
                         prob.data_store.sync_individual(ind)
+                    new = snapshot(ind)
+                    if ind.id in model and not same(model[ind.id], new):
+                        resynced = True
+                    model[ind.id] = new
+            elif o == "inplace":
+                ind = objs[op["i"] % len(objs)]
+                w, val = op["what"], op["val"]
+                if w == "custom-key":
+                    ind.custom["k%d" % k] = val
+                elif w == "custom-nested":
+                    ind.custom.setdefault("nest", []).append(val)
+                elif w == "signed-item" and len(ind.costs_signed) >= 1:
+                    ind.costs_signed[0] = val if len(ind.costs_signed) > 1 else (not ind.costs_signed[0])
+                elif w == "vector-item" and ind.vector:
+                    ind.vector[0] = val
+                elif w == "feature-append":
+                    ind.features.setdefault("velocity", [])
+                    if isinstance(ind.features["velocity"], list):
+                        ind.features["velocity"].append(val)
+                    else:
+                        ind.features["velocity"] = [val]
+                else:
+                    ind.costs.append(val)
+                    ind.costs_signed.insert(-1, val)
+                classes.add("inplace-change")
+                with guard("store"):
+                    if op["sync"] == "all":
+                        prob.data_store.sync_all()
+                    else:
+                        prob.data_store.sync_individual(ind)
+                if op["sync"] == "all":
+                    for other in objs:
+                        model[other.id] = snapshot(other)
+                else:
                     new = snapshot(ind)
                     if ind.id in model and not same(model[ind.id], new):
                         resynced = True
